@@ -1003,7 +1003,37 @@ class Model(object):
         ia = cls.init_attrs(self).get(attr)
         if ia is None or ia.value is None:
             raise NotConst("no constant %s on %s" % (attr, cls.qname))
-        return self.fold(ia.value, ia.cls.module)
+        v = self.fold(ia.value, ia.cls.module)
+        if isinstance(v, list):
+            # a list kept on the instance is the constant it starts as only while nothing extends it: what methods of the class
+            # append to it later (``self._version_forms.append(<pattern>)`` in a legacy reader) may be in it when it is used
+            extra = []
+            for c in [cls] + [k for k in cls.mro() if k is not cls] + list(self.subclasses(cls)):
+                for name, fn in c.methods.items():
+                    if not fn.args.args:
+                        continue
+                    s_ = fn.args.args[0].arg
+                    for n in ast.walk(fn):
+                        tgt = None
+                        if isinstance(n, ast.Call) and isinstance(n.func, ast.Attribute) and n.func.attr in ("append", "extend", "insert") \
+                                and isinstance(n.func.value, ast.Attribute) and n.func.value.attr == attr \
+                                and isinstance(n.func.value.value, ast.Name) and n.func.value.value.id == s_ and n.args:
+                            arg = n.args[-1]
+                            try:
+                                x = self.fold(arg, c.module)
+                            except NotConst:
+                                raise NotConst("%s.%s is extended with a value that is not a constant (%s line %s)" % (cls.qname, attr, name, n.lineno))
+                            extra.extend(x if n.func.attr == "extend" and isinstance(x, (list, tuple)) else [x])
+                        elif isinstance(n, ast.AugAssign) and isinstance(n.target, ast.Attribute) and n.target.attr == attr \
+                                and isinstance(n.target.value, ast.Name) and n.target.value.id == s_:
+                            try:
+                                x = self.fold(n.value, c.module)
+                            except NotConst:
+                                raise NotConst("%s.%s is extended with a value that is not a constant (%s line %s)" % (cls.qname, attr, name, n.lineno))
+                            extra.extend(x if isinstance(x, (list, tuple)) else [x])
+            if extra:
+                v = list(v) + [x for x in extra if x not in v]
+        return v
 
     def fold(self, node, m, env=None):
         try:
